@@ -180,7 +180,23 @@ static void list_dir(const char *sub) {
     fprintf(h_out, "%s%s:%zu:%016llx", i ? "," : "", tmp[i].path + pl, x->cur.n, (unsigned long long)fnv(x->cur.p, x->cur.n)); }
 }
 
+/* the gated calls of process `proc` in the trace of the run just made: number and name (successful close() is traced
+ * without a number: it is the call after the previous one) */
+static struct { int no; char what[16]; } CALLS[400]; static int NCALLS;
+static void record_calls(int proc) {
+  char *s = (char *)sim_trace.p; size_t n = sim_trace.n, i = 0; int last = 0; NCALLS = 0;
+  while (i < n && NCALLS < 400) {
+    size_t j = i; while (j < n && s[j] != '\n') j++;
+    char line[120]; size_t l = j - i < sizeof line - 1 ? j - i : sizeof line - 1; memcpy(line, s + i, l); line[l] = 0;
+    int p, c; char w[32];
+    if (sscanf(line, "P%d #%d %31s", &p, &c, w) == 3 && p == proc) { CALLS[NCALLS].no = c; snprintf(CALLS[NCALLS].what, 16, "%s", w); NCALLS++; last = c; }
+    else if (sscanf(line, "P%d close %d", &p, &c) == 2 && p == proc && sim_gate_close && last) { CALLS[NCALLS].no = ++last; strcpy(CALLS[NCALLS].what, "close"); NCALLS++; }
+    i = j + 1;
+  }
+}
+
 /* ------------------------------------------------------------------ maildir */
+static int md_final_only;
 static void run_md(void) {
   world();
   sim_trace_on = 1;
@@ -195,11 +211,14 @@ static void run_md(void) {
   fprintf(h_out, " pid=%d dir=%s pre=", PID0 + 1, MDIR);
   if (pre.n) fwrite(pre.p, 1, pre.n, h_out); else fputc('-', h_out);
   fputc('\n', h_out);
-  print_trace();
+  print_trace(); record_calls(1);
   fprintf(h_out, "EXIT %d ncalls=%lu faultfired=%d child=%d err=", code, total, sim_fault_fired, P[1].used ? P[1].exitcode : -1);
   h_hex(W.sink[1].p, W.sink[1].n); fprintf(h_out, " out="); h_hex(W.sink[0].p, W.sink[0].n); fputc('\n', h_out);
   sim_trace_on = 0;
-  for (unsigned long k = 1; k <= total + 1; k++)
+  /* md_final_only (generator sections 10/12, faulted runs of the size sweeps): only the state after the last call is
+   * resolved 5 ways; the full crash enumeration of the same delivery is done on its fault-free run.  Cases given on stdin
+   * (corpus, replay, failing-input search) always get the full enumeration. */
+  for (unsigned long k = md_final_only ? total + 1 : 1; k <= total + 1; k++)
     for (int mode = CR_KEEP; mode <= CR_HALF; mode++) {
       world();
       if (k <= total) sim_crash_before = k;
@@ -235,7 +254,7 @@ static void run_mb(void) {
   sim_trace_on = 1;
   int code = sim_run(&P[0], tramps[0]);
   case_head_mb("mb"); fputc('\n', h_out);
-  print_trace();
+  print_trace(); record_calls(0);
   fprintf(h_out, "EXIT %d ncalls=%lu faultfired=%d err=", code, W.ncalls_total, sim_fault_fired);
   h_hex(W.sink[1].p, W.sink[1].n); fprintf(h_out, " out="); h_hex(W.sink[0].p, W.sink[0].n); fputc('\n', h_out);
   print_box();
@@ -415,6 +434,69 @@ static void clean_calls(int *c0, int *c1) {
   sim_trace_on = 1; K.nf = nf;
 }
 
+
+/* ------------------------------------------------------------------ sizes at the buffer boundaries
+ * qmail-local writes through a 1024-byte substdio buffer; which write() call carries which bytes, and whether a put
+ * finds the buffer exactly full, depends on the total output length modulo 1024.  The generators below choose message
+ * lengths such that the OUTPUT of the delivery (mbox: everything appended; maildir: the file) has a prescribed length.
+ * The lead-in (From_ line, Return-Path, Delivered-To, >-quoting, completion of a partial last line) is not computed
+ * here: it is MEASURED on a fault-free run of the implementation, so the generator shares no arithmetic with the model. */
+static long clean_outlen(void) {
+  int nf = K.nf; long r = -1; K.nf = 0; world(); sim_trace_on = 0;
+  sim_run(&P[0], tramps[0]);
+  sim_trace_on = 1; K.nf = nf;
+  if (!strcmp(K.kind, "md")) {
+    for (int i = 0; i < W.ndent; i++) if (W.dent[i].ino >= 0 && !strncmp(W.dent[i].path, MDIR "/new/", sizeof MDIR + 4)) {
+      siminode *x = &W.ino[W.dent[i].ino];
+      if (!(x->cur.n >= 4 && !memcmp(x->cur.p, "OLD:", 4))) r = (long)x->cur.n;       /* not one of prefile()'s */
+    }
+  } else { int ino = sim_lookup(MBOX); if (ino >= 0) r = (long)W.ino[ino].cur.n - (long)(K.boxabsent ? 0 : K.bn); }
+  return r;
+}
+/* message = head ++ filler (lines of 64 'x', the last one 1..64 long) ++ tail; output length is affine in f with slope 1 */
+static void filler_msg(int style, long f) {
+  static const char *HEAD[] = { "Subject: t\n\n", "From the very first line\n>From second\n>>From third\n", "", "" };
+  static const char *TAIL[] = { "\n", "\nFrom the last line, unterminated", "", "\n>From \n\n" };
+  unsigned char *m = K.d[0].msg; size_t n = 0;
+  if (style == 2) { static const unsigned char b[] = { 0, 0xff, '\n', 0x80, 'F', 'r', 'o', 'm', ' ', 0, '\n', '\r', '\n' }; memcpy(m, b, sizeof b); n = sizeof b; }
+  else { n = strlen(HEAD[style]); memcpy(m, HEAD[style], n); }
+  if (f < 1) f = 1; if (f > MAXMSG - 200) f = MAXMSG - 200;
+  while (f > 64) { memset(m + n, 'x', 63); m[n + 63] = '\n'; n += 64; f -= 64; }
+  memset(m + n, 'x', f); n += f;
+  size_t l = strlen(TAIL[style]); memcpy(m + n, TAIL[style], l); n += l;
+  K.d[0].mn = n;
+}
+static int fit_msg(int style, long target) {
+  long f = target > 400 ? target - 300 : 1;
+  for (int it = 0; it < 3; it++) {
+    filler_msg(style, f);
+    long L = clean_outlen(); if (L < 0) return 0;
+    if (L == target) return 1;
+    f += target - L; if (f < 1) return 0;
+  }
+  return 0;
+}
+/* the fault-free run of the current case (printed, full crash enumeration), then the same delivery with one failing
+ * call: every call of the delivery itself (from open_append / all of the maildir child; `writes_only`: only write, fsync,
+ * close, link) x the given fault kinds, plus a short write followed by ENOSPC on the retry (disk full in the middle of a buffer) */
+static void fault_sweep(const int *kinds, int nkinds, int writes_only) {
+  int md = !strcmp(K.kind, "md"), proc = md ? 1 : 0;
+  K.nf = 0;
+  run_case();
+  static struct { int no; char what[16]; } cl[400]; int ncl = NCALLS, from = 0;      /* CALLS[] was recorded by run_md / run_mb */
+  memcpy(cl, CALLS, sizeof cl);
+  if (!md) { while (from < ncl && strcmp(cl[from].what, "open_append")) from++; }
+  md_final_only = 1;
+  for (int ci = from; ci < ncl; ci++) {
+    const char *w = cl[ci].what; int iswrite = !strcmp(w, "write");
+    if (writes_only && !(iswrite || !strcmp(w, "fsync") || !strcmp(w, "close") || !strcmp(w, "link"))) continue;
+    for (int fe = 0; fe < nkinds; fe++) { fault1(proc, cl[ci].no, kinds[fe]); run_case(); }
+    if (iswrite) {
+      K.f[0].proc = proc; K.f[0].callno = cl[ci].no; K.f[0].err = -1; K.f[1].proc = proc; K.f[1].callno = cl[ci].no + 1; K.f[1].err = ENOSPC; K.nf = 2; run_case(); }
+  }
+  md_final_only = 0; K.nf = 0;
+}
+
 static void generate(int level, int nrandom, uint64_t seed) {
   /* (1) gfrom(): every string over a small alphabet */
   { static const char A[] = ">From \nf"; int L = level >= 3 ? 7 : 6; unsigned char b[8];
@@ -524,6 +606,45 @@ static void generate(int level, int nrandom, uint64_t seed) {
       run_case();
     }
   }
+
+  /* (10) output length exactly at the buffer boundaries: total output = k*1024 + d, d = -3..3, mbox and maildir, three
+   *      message styles (text; From_/>From_ lines + unterminated last line; NUL/8-bit), rotating senders and old-file
+   *      shapes / name collisions; each with a failing call at EVERY call index of the delivery x {ENOSPC, short write,
+   *      EINTR (thorough: + EIO, alarm)} and short write + ENOSPC on the retry */
+  { static const int KQ[] = { ENOSPC, -1, EINTR }, KT[] = { ENOSPC, -1, EINTR, EIO, -3 };
+    int kmax = level >= 3 ? 6 : 4; long c = 0;
+    for (int md = 0; md < 2; md++) for (int k = 1; k <= kmax; k++) for (int d = -3; d <= 3; d++) for (int style = 0; style < 3; style++, c++) {
+      if (level < 3 && md && (int)((c + seed) % 3) != 0) continue;          /* quick: one style per maildir size (rotating with the seed) */
+      if (!mine()) continue;                                                /* one shard does the whole sweep of a size */
+      kclear(md ? "md" : "mb");
+      strcpy(K.d[0].sender, SENDERS[(c + seed) % NSENDERS]);
+      if (md) K.collide = (c + seed) % 5 == 4 ? 1 : 0; else set_box((int[]){ 2, 0, 3, 1 }[(c + seed) % 4]);
+      if (!fit_msg(style, 1024L * k + d)) { run_case(); continue; }    /* not reachable: still exercise the case */
+      fault_sweep(level >= 3 ? KT : KQ, level >= 3 ? 5 : 3, 0);
+    }
+    /* the input side: MESSAGE length k*1024 + d (the 1024-byte read buffer), same fault sweep */
+    for (int md = 0; md < 2; md++) for (int k = 1; k <= kmax; k++) for (int d = -1; d <= 1; d++, c++) {
+      if (!mine()) continue;
+      kclear(md ? "md" : "mb");
+      int style = (int)((c + seed) % 3);
+      strcpy(K.d[0].sender, SENDERS[(c + seed) % NSENDERS]);
+      if (!md) set_box((int[]){ 2, 0, 3, 1 }[(c + seed) % 4]);
+      filler_msg(style, 64); filler_msg(style, 64 + 1024L * k + d - (long)K.d[0].mn);
+      fault_sweep(level >= 3 ? KT : KQ, level >= 3 ? 5 : 3, 0);
+    } }
+  /* (11) the same without knowing where the boundaries are: the filler length runs over a full residue class range
+   *      0..1030 (quick: a seeded third of it per run for each kind, so three seeds cover everything), a failing write / fsync /
+   *      close / link at every such call x {ENOSPC, short write} */
+  { static const int KR[] = { ENOSPC, -1 };
+    for (int md = 0; md < 2; md++) for (int base = 0; base < (level >= 3 ? 3 : 1); base++) for (long f = 0; f <= 1030; f++) {
+      if (level < 3 && (f + seed + md) % 3 != 0) continue;
+      if (!mine()) continue;
+      kclear(md ? "md" : "mb");
+      int style = (int)((f / 3 + base) % 4);
+      filler_msg(style, 1 + f + 1024L * base + (base ? (long)((seed * 7919) % 1024) : 0));
+      if (!md) set_box((int)(f % 2) * 2);
+      fault_sweep(KR, level >= 3 ? 2 : 1, 1);
+    } }
   /* (9) seeded random single deliveries */
   for (int r = 0; r < nrandom; r++) {
     if (!mine()) continue;
@@ -537,7 +658,11 @@ static void generate(int level, int nrandom, uint64_t seed) {
     K.time = h_below(2) ? TIMES[h_below(NTIMES)] : (long)(h_rand() % 4000000000ull);
     if (md) { if (K.time > 4000000000) K.time = 999999999; K.collide = h_below(3) ? 0 : (int)h_below(6); }
     else set_box((int)h_below(NBOX));
-    if (h_below(3) == 0) fault1(md ? (int)h_below(2) : 0, 1 + (int)h_below(14), FERRS[h_below(NFERRS)]);
+    if (h_below(3) == 0) {      /* any call of the parent / the maildir child, however long the run is */
+      int c0, c1; clean_calls(&c0, &c1);
+      int pr = md && c1 > 0 ? (int)h_below(2) : 0, nc = pr ? c1 : c0;
+      fault1(pr, 1 + (int)h_below(nc > 0 ? nc : 1), FERRS[h_below(NFERRS)]);
+    }
     run_case();
   }
 }
